@@ -151,6 +151,15 @@ func New(s *sim.Server, withRevisions bool) (*Env, error) {
 		e.RevLister = e.McInformers.Metacontroller().V1alpha1().ControllerRevisions().Lister()
 		e.RevInformer = e.McInformers.Metacontroller().V1alpha1().ControllerRevisions().Informer()
 		e.McInformers.Start(e.stopCh)
+		// the revision informer is part of the environment, not of any hosted controller: have its
+		// initial LIST and WATCH behind us before a test starts counting requests and watches
+		deadline := time.Now().Add(WatchdogTimeout)
+		for !(e.RevInformer.HasSynced() && e.Sim.OpenWatches(RevisionGVR) > 0) {
+			if time.Now().After(deadline) {
+				break
+			}
+			time.Sleep(200 * time.Microsecond)
+		}
 	}
 	return e, nil
 }
